@@ -127,7 +127,12 @@ def _delay(when: dawgie.EVENT) -> datetime.timedelta:
     today = now.isoweekday() - 1
 
     if when.moment.boot is not None:
-        if when in booted:
+        # algorithms compare equal when their versions do, so two algorithms
+        # of one factory need their names to tell their boot events apart
+        if any(
+            when == b and when.algref.impl.name() == b.algref.impl.name()
+            for b in booted
+        ):
             raise _DelayNotKnowableError()
 
         booted.append(when)
